@@ -60,7 +60,8 @@ def replay_phase(ev, rep, work, tier, pid, key_prefix="blockproc"):
     plans = [("hash0", False, dict(nf=2, mb=1, backlogs=(3, 5), flagsets=[[], ["IGNORE_SPARSE"]], tails=(1, 3))),
              ("plain", True, dict(nf=2, mb=1, backlogs=(3, 4), flagsets=[[], ["DONT_DEDUP"]], tails=(2,))),
              ("serial", True, dict(nf=2, mb=1, ids=["a", "b", "z"], backlogs=(3,), flagsets=[[], ["DONT_FRAGMENT"]], tails=(1, 3))),
-             ("hash0", False, dict(nf=3, mb=1, ids=["a", "c", "z"], backlogs=(3, 4), flagsets=[[]], tails=(2,)))]
+             ("hash0", False, dict(nf=3, mb=1, ids=["a", "c", "z"], backlogs=(3, 4), flagsets=[[]], tails=(2,))),
+             ("plain", True, dict(nf=2, mb=3, ids=["a", "z"], backlogs=(3, 5), flagsets=[[]], tails=(2,)))]
     if tier != "quick":
         plans += [("hash0", False, dict(nf=4, mb=0, ids=["a", "c", "z"], backlogs=(3, 4), flagsets=[[], ["IGNORE_SPARSE"]], tails=(1, 2))),
                   ("plain", True, dict(nf=2, mb=2, backlogs=(3, 6), flagsets=[[], ["DONT_COMPRESS"]], tails=(1, 3))),
